@@ -145,6 +145,20 @@ PROPS["C19"] = {
     "explanation": "exhaustive bounded evaluation of the contract",
 }
 
+PROPS["C10"] = {
+    "modules": ["contracts.ops_mk"],
+    "contracts": ["hdc/algo/ops/stats.py::mk_score", "hdc/algo/ops/stats.py::mk_z_score", "hdc/algo/ops/stats.py::mk_p_value",
+                  "hdc/algo/ops/stats.py::mann_kendall_trend_1d", "hdc/algo/ops/stats.py::_mann_kendall_trend_gu_nd"],
+    "standin": True,
+    "level": "proof",
+    "trusted": ["z3 5.1 / cvc5 1.0.3", "erf / ndtri / sqrt uninterpreted", "mk_variance_s and mk_sens_slope are used through call-site contracts only (tie-corrected variance, median of pairwise slopes: bounded stand-in; their index safety is discharged in C14)"],
+    "not_proved": ["tie-corrected variance formula, Sen's slope as the median of all pairwise slopes, the symmetries (monotone transforms, negation, reversal) and h <=> p < 0.05: exhaustive bounded stand-in over all rank patterns up to length 6 (7 thorough), as the property's quantifier asks"],
+    "assumptions": ["integers mathematical; floats exact reals (model R)"],
+    "level_text": "mk_score: S equals the double sum of signs and tau = S / (n(n-1)/2) for all series (nested loop invariants over spec sums); mk_z_score / mk_p_value: the continuity correction and the two-sided normal p / significance formula of the statement are evaluated with the right operands; mann_kendall_trend_1d: tau, p, slope are passed through and the flag is sign(Z) when significant, else 0; all-nodata pixels yield nodata and flag -2. Variance, Sen slope and the symmetries are decided by the exhaustive bounded stand-in",
+    "level_note": "trusted: z3/cvc5; special functions uninterpreted; tie variance / Sen slope / symmetries only bounded (exhaustive over rank patterns); Numba faithful (C13)",
+    "explanation": "nested loop invariants over mk_inner / mk_S spec functions; branch-wise postconditions",
+}
+
 ALL = ["C%02d" % i for i in range(1, 21)]
 NOT_APPLICABLE = {
     "C13": "statement about Numba's type inference/lowering and the ctypes binding of SciPy kernels (the translator), not about functions of /repo: no contract on hdc-algo source can establish or refute it; it is the stated assumption of every proof here",
